@@ -735,6 +735,194 @@ theorem C05_refines_publish_one (db db' : Db) (t : Topic) (now : Time) (pm : Pub
 
 end enqueue
 
+/-! ### the jobs that delete delivery rows refine the shrinking step -/
+
+section prune
+open Mmmbbb.Ord
+
+/-- the row rewrite of `deleteDeliveries` -/
+def clrV (ids : List Id) (d : Delivery) : Delivery :=
+  match d.notBefore with
+  | some p => if ids.contains p then { d with notBefore := none } else d
+  | none => d
+
+theorem clrV_id (ids : List Id) (d : Delivery) : (clrV ids d).id = d.id := by
+  unfold clrV; split <;> (try split) <;> rfl
+
+theorem deleteDeliveries_dels (db : Db) (ids : List Id) :
+    (deleteDeliveries db ids).dels = (db.dels.filter fun d => !ids.contains d.id).map (clrV ids) := rfl
+
+theorem removedIds_deleteDeliveries (db : Db) (victims : List Id) (i : Id) (hi : i ∈ db.dels.map (·.id)) :
+    (removedIds db.dels (deleteDeliveries db victims).dels).contains i = victims.contains i := by
+  rw [deleteDeliveries_dels]
+  unfold removedIds
+  rw [Bool.eq_iff_iff, List.contains_iff_mem, List.contains_iff_mem, List.mem_filter]
+  constructor
+  · rintro ⟨_, h⟩
+    obtain ⟨d, hd, hdi⟩ := List.mem_map.mp hi
+    by_cases hv : i ∈ victims
+    · exact hv
+    · exfalso
+      have hk : d ∈ db.dels.filter fun d => !victims.contains d.id := by
+        refine List.mem_filter.mpr ⟨hd, ?_⟩
+        simp only [Bool.not_eq_true', List.contains_eq_mem, decide_eq_false_iff_not]
+        rw [hdi]; exact hv
+      have hany : (List.map (clrV victims) (db.dels.filter fun d => !victims.contains d.id)).any (fun x => x.id == i) = true := by
+        apply List.any_eq_true.mpr
+        exact ⟨clrV victims d, List.mem_map.mpr ⟨d, hk, rfl⟩, by rw [clrV_id, hdi]; simp⟩
+      rw [hany] at h; simp at h
+  · intro hv
+    refine ⟨hi, ?_⟩
+    have : (List.map (clrV victims) (db.dels.filter fun d => !victims.contains d.id)).any (fun x => x.id == i) = false := by
+      apply List.any_eq_false.mpr
+      intro x hx
+      obtain ⟨d, hd, rfl⟩ := List.mem_map.mp hx
+      have hd' := (List.mem_filter.mp hd).2
+      rw [clrV_id]
+      intro heq
+      have : d.id = i := by simpa using heq
+      rw [this] at hd'
+      have hc : victims.contains i = true := List.contains_iff_mem.mpr hv
+      rw [hc] at hd'; cases hd'
+    rw [this]; rfl
+
+/-- deleting delivery rows that exist and are not outstanding (acknowledged, or past their retention)
+    is a shrinking step of the ordered-delivery obligation: the rows go, the links to them are cleared
+    (`ON DELETE SET NULL`), nothing else changes -/
+theorem shrinkOk_deleteDeliveries (db : Db) (now : Time) (victims : List Id)
+    (hex : ∀ v ∈ victims, v ∈ db.dels.map (·.id))
+    (hdone : ∀ d ∈ db.dels, victims.contains d.id = true → d.isOpen now = false) :
+    shrinkOk db now (deleteDeliveries db victims) = true := by
+  have hR : ∀ i ∈ db.dels.map (·.id), (removedIds db.dels (deleteDeliveries db victims).dels).contains i = victims.contains i :=
+    fun i hi => removedIds_deleteDeliveries db victims i hi
+  unfold shrinkOk
+  simp only [Bool.and_eq_true, beq_iff_eq]
+  refine ⟨⟨?_, ?_⟩, ?_⟩
+  · -- the table after
+    rw [deleteDeliveries_dels] at hR ⊢
+    have hRsub : ∀ p, (removedIds db.dels ((db.dels.filter fun d => !victims.contains d.id).map (clrV victims))).contains p = true →
+        p ∈ db.dels.map (·.id) := by
+      intro p hp
+      have := List.contains_iff_mem.mp hp
+      unfold removedIds at this
+      exact (List.mem_filter.mp this).1
+    generalize removedIds db.dels ((db.dels.filter fun d => !victims.contains d.id).map (clrV victims)) = R at hR hRsub ⊢
+    have hf : (db.dels.filter fun d => !R.contains d.id) = db.dels.filter fun d => !victims.contains d.id := by
+      apply List.filter_congr
+      intro d hd
+      rw [hR d.id (List.mem_map.mpr ⟨d, hd, rfl⟩)]
+    rw [hf]
+    apply List.map_congr_left
+    intro d hd
+    have hdm : d ∈ db.dels := (List.mem_filter.mp hd).1
+    unfold clrV clr
+    cases hnb : d.notBefore with
+    | none => rfl
+    | some p =>
+      simp only
+      by_cases hp : p ∈ db.dels.map (·.id)
+      · rw [hR p hp]
+      · -- a link to a row that is not in the table: neither list contains it
+        have h1 : victims.contains p = false := by
+          cases hc : victims.contains p with
+          | false => rfl
+          | true => exact absurd (hex p (List.contains_iff_mem.mp hc)) hp
+        have h2 : R.contains p = false := by
+          cases hc : R.contains p with
+          | false => rfl
+          | true => exact absurd (hRsub p hc) hp
+        rw [h1, h2]
+  · apply List.all_eq_true.mpr
+    intro d hd
+    have := hR d.id (List.mem_map.mpr ⟨d, hd, rfl⟩)
+    rw [this]
+    cases hv : victims.contains d.id with
+    | false => simp
+    | true => simp [hdone d hd hv]
+  · apply List.all_eq_true.mpr
+    intro d _
+    simp only [Bool.or_eq_true, beq_iff_eq]
+    right; rfl
+
+theorem stepOk_of_shrink (db : Db) (now : Time) (db' : Db) (hs : db'.subs = db.subs) (h : shrinkOk db now db' = true) :
+    stepOk true db now db' now = true := by
+  unfold stepOk
+  simp only [Bool.and_eq_true, decide_eq_true_eq, Bool.or_eq_true]
+  exact ⟨⟨Int.le_refl _, subsOk_same db db' hs⟩, Or.inr h⟩
+
+theorem limitOk_victims {α} {rows : List α} {lookup : Id → Option α} {p : α → Bool} {victims : List Id} {max : Nat}
+    (h : limitOk rows lookup p victims max = true) : ∀ v ∈ victims, ∃ r, lookup v = some r ∧ p r = true := by
+  unfold limitOk at h
+  simp only [Bool.and_eq_true] at h
+  intro v hv
+  have := List.all_eq_true.mp h.2 v hv
+  cases hl : lookup v with
+  | none => rw [hl] at this; cases this
+  | some r => rw [hl] at this; exact ⟨r, rfl, this⟩
+
+theorem delById_mem {db : Db} {v : Id} {r : Delivery} (h : db.delById v = some r) : r ∈ db.dels ∧ r.id = v := by
+  unfold Db.delById at h
+  exact ⟨List.mem_of_find?_eq_some h, by simpa using List.find?_some h⟩
+
+/-- **the job that removes acknowledged deliveries refines the shrinking step** (ids unique) -/
+theorem C05_refines_pruneCompletedDeliveries (st : St) (a : Int) (mx : Nat) (v : List Id)
+    (huniq : (st.db.dels.map (·.id)).Nodup) :
+    Ord.stepOk true st.db st.now (step st (.pruneCompletedDeliveries a mx v)).1.db (step st (.pruneCompletedDeliveries a mx v)).1.now = true := by
+  simp only [step]
+  unfold pruneCompletedDeliveries
+  simp only
+  split
+  · simp only [finish]
+    exact Ord.stepOk_of_same st.db st.now _ st.now (Int.le_refl _) rfl rfl rfl
+  · rename_i hlim
+    simp only [finish]
+    have hlim' := by simpa using hlim
+    have hv := limitOk_victims hlim'
+    refine stepOk_of_shrink st.db st.now _ rfl (shrinkOk_deleteDeliveries st.db st.now v ?_ ?_)
+    · intro x hx
+      obtain ⟨r, hr, _⟩ := hv x hx
+      obtain ⟨hm, hid⟩ := delById_mem hr
+      exact List.mem_map.mpr ⟨r, hm, hid⟩
+    · intro d hd hc
+      obtain ⟨r, hr, hp⟩ := hv d.id (List.contains_iff_mem.mp hc)
+      obtain ⟨hm, hid⟩ := delById_mem hr
+      have : r = d := Ord.eq_of_nodup_ids huniq hm hd hid
+      subst this
+      refine (Ord.isOpen_false_iff st.now r).mpr (Or.inl ?_)
+      cases hcc : r.completedAt with
+      | none => rw [hcc] at hp; cases hp
+      | some c => rfl
+
+/-- **the job that removes deliveries past their retention refines the shrinking step** (ids unique) -/
+theorem C05_refines_pruneExpiredDeliveries (st : St) (mx : Nat) (v : List Id)
+    (huniq : (st.db.dels.map (·.id)).Nodup) :
+    Ord.stepOk true st.db st.now (step st (.pruneExpiredDeliveries mx v)).1.db (step st (.pruneExpiredDeliveries mx v)).1.now = true := by
+  simp only [step]
+  unfold pruneExpiredDeliveries
+  simp only
+  split
+  · simp only [finish]
+    exact Ord.stepOk_of_same st.db st.now _ st.now (Int.le_refl _) rfl rfl rfl
+  · rename_i hlim
+    simp only [finish]
+    have hlim' := by simpa using hlim
+    have hv := limitOk_victims hlim'
+    refine stepOk_of_shrink st.db st.now _ rfl (shrinkOk_deleteDeliveries st.db st.now v ?_ ?_)
+    · intro x hx
+      obtain ⟨r, hr, _⟩ := hv x hx
+      obtain ⟨hm, hid⟩ := delById_mem hr
+      exact List.mem_map.mpr ⟨r, hm, hid⟩
+    · intro d hd hc
+      obtain ⟨r, hr, hp⟩ := hv d.id (List.contains_iff_mem.mp hc)
+      obtain ⟨hm, hid⟩ := delById_mem hr
+      have : r = d := Ord.eq_of_nodup_ids huniq hm hd hid
+      subst this
+      refine (Ord.isOpen_false_iff st.now r).mpr (Or.inr ?_)
+      have : r.expiresAt < st.now := by simpa using hp
+      exact Int.le_of_lt this
+
+end prune
+
 /-- non-vacuity: an ordered subscription, two messages of key "k" in one request, the first is pulled
     and acknowledged, then the second is pulled — every step satisfies the obligation (and while the
     first is outstanding the model's pull is given, and accepts, only the first as candidate) -/
